@@ -23,7 +23,10 @@ type St struct {
 	Tag   string                    // run tag of the run that generated this state
 	ID    int                       // identity given by the generator function
 	Saved map[string]map[string]any // inputs saved by the pre-handlers of nodes that may ask for a re-run
+	Roles map[roleT]int             // a map keyed by a named string type (must survive a checkpoint round trip)
 }
+
+type roleT string
 
 // nilTok: a typed nil *nilTok travels in some inputs (a nil pointer in an interface-typed slot
 // is not the same thing as no value, also after a checkpoint round trip).
@@ -33,6 +36,7 @@ func init() {
 	_ = compose.RegisterSerializableType[St]("verif_state")
 	_ = compose.RegisterSerializableType[map[string]any]("verif_map")
 	_ = compose.RegisterSerializableType[nilTok]("verif_niltok")
+	_ = compose.RegisterSerializableType[roleT]("verif_role")
 	// nodes whose static output type is `any`: the application tells the framework how chunks of
 	// that type concatenate (the framework cannot know for an interface type)
 	compose.RegisterStreamChunkConcatFunc(func(vs []any) (any, error) {
@@ -757,7 +761,7 @@ func (b *builder) newGraphOpts(p *Plan, path string) []compose.NewGraphOption {
 	}
 	e := b.env
 	return []compose.NewGraphOption{compose.WithGenLocalState(func(ctx context.Context) *St {
-		st := &St{Tag: tagOf(ctx), ID: len(e.States) + 1}
+		st := &St{Tag: tagOf(ctx), ID: len(e.States) + 1, Roles: map[roleT]int{"user": 1, "a b\"c": 2}}
 		e.States = append(e.States, st)
 		e.StatePath[st] = path
 		e.S.Log(fmt.Sprintf("genstate %s %s id=%d", st.Tag, path, st.ID))
